@@ -38,6 +38,7 @@ def run_shard(args):
   mod = _module(args.prop)
   shard, nshards = (int(x) for x in args.shard.split('/'))
   ctx = core.Ctx(args.prop, args.tier, args.seed, shard, nshards, replay_case=args.case)
+  ctx.config = args.config
   status = 'ok'
   try:
     import fedjax  # pylint: disable=import-outside-toplevel
@@ -45,6 +46,8 @@ def run_shard(args):
     if root != REPO_ROOT:
       raise core.HarnessError(f'fedjax imported from {root}, expected {REPO_ROOT}')
     mod.run(ctx)
+    if args.config:
+      ctx.count(f'config:{args.config}', ctx.evaluations)
   except core.Inconclusive as e:
     ctx.inconclusive_because(f'inconclusive: {e}')
     status = 'inconclusive'
@@ -53,6 +56,7 @@ def run_shard(args):
     status = 'harness-error'
   res = ctx.result()
   res['status'] = status
+  res['config'] = args.config
   with open(args.out + '.tmp', 'w') as f:
     json.dump(res, f)
   os.replace(args.out + '.tmp', args.out)
@@ -60,13 +64,18 @@ def run_shard(args):
 
 
 # ----------------------------------------------------------------- parent mode
-def _spawn(prop, tier, seed, shard, nshards, out, env, case=None):
+def _spawn(prop, tier, seed, shard, nshards, out, env, case=None, config=None):
   cmd = [
       sys.executable, '-m', 'vmon.run', prop, '--tier', tier, '--seed',
       str(seed), '--shard', f'{shard}/{nshards}', '--out', out
   ]
   if case:
     cmd += ['--case', case]
+  if config:
+    # a "configuration shard": the same cases as the plain shard of that index, run under an environment the library is
+    # supposed to be indifferent to (CONFIGS of the check module)
+    cmd += ['--config', config['name']]
+    env = dict(env, **config['env'])
   log = open(out + '.log', 'w')
   return subprocess.Popen(cmd, cwd=VERIF_ROOT, env=env, stdout=log, stderr=subprocess.STDOUT), log
 
@@ -80,6 +89,7 @@ def main(argv=None):
   ap.add_argument('--shard')
   ap.add_argument('--out')
   ap.add_argument('--case')
+  ap.add_argument('--config')
   ap.add_argument('--jobs', type=int, default=int(os.environ.get('VERIF_JOBS', '0') or 0))
   args = ap.parse_args(argv)
   args.prop = args.prop.upper()
@@ -99,10 +109,19 @@ def main(argv=None):
     with open(args.replay) as f:
       rp = json.load(f)
     tier, seed, case = rp['tier'], rp['seed'], rp['case']
-    shards = [(rp['shard'], rp['nshards'])]
+    cfg = None
+    if rp.get('config'):
+      cfg = next((c for t in getattr(mod, 'CONFIGS', {}).values() for c in t if c['name'] == rp['config']), None)
+      if cfg is None:
+        print(f"unknown configuration {rp['config']!r} in replay file")
+        return 2
+    shards = [(rp['shard'], rp['nshards'], cfg)]
   else:
     n = mod.SHARDS[tier]
-    shards = [(i, n) for i in range(n)]
+    shards = [(i, n, None) for i in range(n)]
+    # configuration shards: CONFIGS = {tier: [{'name':..., 'env': {...}, 'shard': optional index}, ...]}
+    for j, cfg in enumerate(getattr(mod, 'CONFIGS', {}).get(tier, [])):
+      shards.append((cfg.get('shard', j) % n, n, cfg))
 
   env = dict(os.environ)
   env.setdefault('JAX_PLATFORMS', 'cpu')
@@ -132,9 +151,9 @@ def main(argv=None):
   try:
     while pending or running:
       while pending and len(running) < jobs:
-        s, n = pending.pop(0)
-        out = os.path.join(work, f'shard{s}.json')
-        p, log = _spawn(prop, tier, seed, s, n, out, env, case)
+        s, n, cfg = pending.pop(0)
+        out = os.path.join(work, f"shard{s}{'-' + cfg['name'] if cfg else ''}.json")
+        p, log = _spawn(prop, tier, seed, s, n, out, env, case, cfg)
         running.append((p, log, out, s, time.time()))
       time.sleep(0.05)
       still = []
@@ -191,6 +210,9 @@ def main(argv=None):
     if r.get('status') != 'ok':
       harness_problems.append(f"shard {r['shard']}: status {r.get('status')}")
   samples = samples[:core.MAX_SAMPLES]
+  cfgs = sorted({r.get('config') for r in results if r.get('config')})
+  if cfgs:
+    notes['configuration_shards'] = {c['name']: c['env'] for c in getattr(mod, 'CONFIGS', {}).get(tier, []) if c['name'] in cfgs}
 
   known = core.load_known_findings(prop)
   unknown_v = [v for v in violations if v['key'] not in known]
@@ -202,6 +224,9 @@ def main(argv=None):
 
   # MIN_HITS: deciding monitors must have been reached.
   if not args.replay:
+    for cfg in getattr(mod, 'CONFIGS', {}).get(tier, []):
+      if counters.get(f"config:{cfg['name']}", 0) <= 0:
+        harness_problems.append(f"configuration shard {cfg['name']!r} evaluated no case")
     for name, need in getattr(mod, 'MIN_HITS', {}).get(tier, {}).items():
       got = counters.get(name, classes.get(name, 0))
       if got < need:
@@ -225,6 +250,7 @@ def main(argv=None):
                 'shard': v['shard'],
                 'nshards': v['nshards'],
                 'case': v['case'],
+                'config': v.get('config'),
                 'key': v['key'],
                 'what': v['what'],
                 'witness': v['witness'],
